@@ -124,6 +124,8 @@ func c09attr(inPlace bool) {
 	nb := sentinelNode("n", "b")
 	fillField(na, f, "a", k)
 	fillField(nb, f, "b", k)
+	fillField(na, fType, "a", k)
+	fillField(nb, fType, "b", k)
 	a := &sbom.NodeList{Nodes: []*sbom.Node{na}}
 	b := &sbom.NodeList{Nodes: []*sbom.Node{nb}}
 	wantA, wantB := cloneNode(na), cloneNode(nb)
